@@ -69,6 +69,8 @@ type eagerPlan struct {
 	HasFan   bool
 	HasChain bool
 	HasInter bool
+	HasMerge bool
+	HasSide  bool
 }
 
 const (
@@ -77,6 +79,9 @@ const (
 	roleBehind = "producer-behind-intermediate"
 	roleInter  = "intermediate-of-skipped-consumers"
 	roleOther  = "node-on-the-path-to-end"
+	roleMerged = "producer-behind-merging-intermediate"
+	roleSide   = "end-path-node-with-a-side-successor"
+	roleSideN  = "side-successor-of-the-end-path"
 )
 
 func genEager(rng *mon.Rand) *eagerPlan {
@@ -226,6 +231,17 @@ func genEager(rng *mon.Rand) *eagerPlan {
 			src, role = yk, ""
 			p.Prods = append(p.Prods, yk)
 			p.HasInter = true
+			if rng.Prob(0.35) {
+				// the intermediate merges two producers: one of them may be parked in its channel while
+				// the other is still running when END becomes ready
+				zk := fmt.Sprintf("pz%d", i)
+				add(mk(zk), roleMerged)
+				p.Roles[pk] = roleMerged
+				edge(gspec.EdgeSpec{From: gspec.START, To: zk})
+				edge(gspec.EdgeSpec{From: zk, To: yk})
+				p.Prods = append(p.Prods, zk)
+				p.HasMerge = true
+			}
 		default:
 			// one copy is consumed on the path to END
 			edge(gspec.EdgeSpec{From: pk, To: "w", NoControl: true})
@@ -246,6 +262,14 @@ func genEager(rng *mon.Rand) *eagerPlan {
 			edge(gspec.EdgeSpec{From: src, To: t, NoControl: true})
 		}
 	}
+	if rng.Prob(0.2) {
+		// a successor of the END path that becomes ready together with END; its own consumer is skipped
+		add(anyNode("z"), roleSideN)
+		p.Roles[p.Tail] = roleSide
+		edge(gspec.EdgeSpec{From: p.Tail, To: "z"})
+		edge(gspec.EdgeSpec{From: "z", To: skippedNodes[rng.Intn(len(skippedNodes))], NoControl: true})
+		p.HasSide = true
+	}
 	fixInputs(rng, g)
 	p.Inner, p.Top = g, g
 	if rng.Prob(0.25) {
@@ -258,7 +282,7 @@ func genEager(rng *mon.Rand) *eagerPlan {
 		p.Top = outer
 	}
 	gspec.FixNames(p.Top, "")
-	p.Shape = fmt.Sprintf("k%d multi%v sel%d prods%d chain%v inter%v fan%v nested%v", k, multi, len(chosen)-1, m, p.HasChain, p.HasInter, p.HasFan, p.Nested)
+	p.Shape = fmt.Sprintf("k%d multi%v sel%d prods%d chain%v inter%v fan%v merge%v side%v nested%v", k, multi, len(chosen)-1, m, p.HasChain, p.HasInter, p.HasFan, p.HasMerge, p.HasSide, p.Nested)
 	return p
 }
 
@@ -418,6 +442,17 @@ func eagerEndCase(ctx context.Context, rep *mon.Reporter, rng *mon.Rand, cfg mon
 		return
 	}
 	rep.Count("eager_end_cases", 1)
+	if p.Nested {
+		rep.Count("eager_end_cases_nested_in_"+p.Top.Mode.String(), 1)
+	}
+	for _, f := range []struct {
+		on   bool
+		name string
+	}{{p.HasChain, "skipped_chain"}, {p.HasInter, "intermediate"}, {p.HasFan, "consumed_copy"}, {p.HasMerge, "merging_intermediate"}, {p.HasSide, "side_successor_of_end_path"}} {
+		if f.on {
+			rep.Count("eager_end_cases_with_"+f.name, 1)
+		}
+	}
 	rep.Distinct("eager_end_shapes", p.Shape)
 	rep.Distinct("shapes", p.Top.Shape())
 	forced = p.Choices
@@ -431,10 +466,7 @@ func eagerEndCase(ctx context.Context, rep *mon.Reporter, rng *mon.Rand, cfg mon
 		runHooks.body, runHooks.chunk = body, chunk
 		runHooks.witness = map[string]any{"delay_scenario": scen, "body_delays": body, "chunk_delays": chunk, "roles": p.Roles, "forced_branch_outcome": p.Choices}
 		runHooks.classify = func(unreleased []string) string {
-			pre := "eager-end/"
-			if p.Nested {
-				pre = "eager-end/nested-workflow/"
-			}
+			pre := "eager-end/" // same root causes whether or not the Workflow is a nested graph: one signature
 			if len(unreleased) == 0 {
 				return pre + "framework-goroutine-parked"
 			}
@@ -451,7 +483,7 @@ func eagerEndCase(ctx context.Context, rep *mon.Reporter, rng *mon.Rand, cfg mon
 				}
 				have[role] = true
 			}
-			for _, role := range []string{roleDirect, roleBehind, roleInter, roleFan, roleOther, "unknown-node"} {
+			for _, role := range []string{roleDirect, roleBehind, roleInter, roleFan, roleMerged, roleSide, roleSideN, roleOther, "unknown-node"} {
 				if have[role] {
 					return pre + role
 				}
